@@ -264,3 +264,32 @@ def register_guarded_actor(router, log, name="guarded"):
 
     body.__name__ = name
     router.actor(name=name)(body)
+
+
+# ------------------------------------------------------- C18: the message dependency belongs to the current delivery
+def register_fresh_actor(router, name, seen, keep, fail_until, via_retry):
+    """Actor and provider both take the MessageDependency; each execution records what its `m` says about the delivery.
+    keep=True holds on to every `m` (user code keeping the handle around, e.g. for a later report)."""
+    kept = []
+
+    async def look(m: MessageDependency):
+        if keep:
+            kept.append(m)
+        return {"id": m.key.id_, "tried": m.parameters.retries.already_tried, "read_only": m.read_only, "ts": m.parameters.timestamp.isoformat(), "obj": id(m)}
+
+    async def body(g: Annotated[Any, Depends(look)], m: MessageDependency):
+        if keep:
+            kept.append(m)
+        rec = {"id": m.key.id_, "provider": g, "actor": {"tried": m.parameters.retries.already_tried, "read_only": m.read_only, "obj": id(m)}}
+        seen.append(rec)
+        n = len([r for r in seen if r["id"] == m.key.id_])
+        if n <= fail_until:
+            if via_retry:
+                await m.retry()  # explicit retry through the handle
+                return None
+            raise ValueError("not yet {0}")
+        return n
+
+    body.__name__ = name
+    router.actor(name=name)(body)
+    return kept
